@@ -5,13 +5,14 @@ def prepare(wd):
     """instrumented copies of the CURRENT queue sources (scheduling points before every lock /
     unlock / select), plus the scheduler package"""
     files = {}
-    for f in ('simple.go',):
+    for f in ('simple.go', 'priority.go'):
         out = os.path.join(wd, 'inj_' + f)
         rc, log = vlib.sh([os.path.join(vlib.VERIF, 'bin', 'inject'), '-in', os.path.join(vlib.REPO, 'internal/queue', f), '-out', out])
         if rc != 0:
             raise RuntimeError('inject failed: ' + log)
         files['internal/queue/' + f] = out
     files['internal/vsched/vsched.go'] = os.path.join(vlib.VERIF, 'sched/vsched/vsched.go')
+    files['internal/vsched/explore.go'] = os.path.join(vlib.VERIF, 'sched/vsched/explore.go')
     return files
 
 SPEC = {
@@ -24,10 +25,15 @@ SPEC = {
         'files': [('internal/queue', 'harness/queue/zz_verif_c15_test.go')],
         'prepare': prepare,
         'model_module': 'Model.C15_Queue', 'shard': 150, 'timeout': 900,
+    }, {
+        'name': 'priority', 'pkg': './internal/queue', 'test': 'TestVerifC15PQ',
+        'files': [('internal/queue', 'harness/queue/zz_verif_c15_test.go'), ('internal/queue', 'harness/queue/zz_verif_c15pq_test.go')],
+        'prepare': prepare,
+        'model_module': 'Model.C15_Queue', 'shard': 150, 'timeout': 900,
     }],
     'rule': 'stateless depth-first enumeration of the schedules of small scenarios (1-2 producers, 1-3 items, optional '
             'cancellation) on the real SimpleQueue instrumented at every lock/unlock/select, one case per schedule with the '
-            'status vector of all threads after every step; plus random operation sequences on the real PriorityQueue; '
+            'status vector of all threads after every step; plus random operation sequences on the real PriorityQueue; priority stream: several tasks (NextAll whose callback contains a scheduling point, Add, Next) on ONE real PriorityQueue instrumented at every mutex operation, every schedule of four small scenarios (up to 100 / 1500 each), replayed by the model with one atomic step per operation in the order in which the tasks passed the lock; oracle: nothing lost or handed out twice, every NextAll ascending; '
             'non-trivial = schedule with at least one pre-emption / sequence containing a pop; distinct = distinct case term',
     'trusted_base': [
         'Coq 8.16.1 kernel; vm_compute for evaluating the model on cases',
